@@ -7,7 +7,7 @@ use super::{
     models::{FieldAttribute, FieldAttributeBuilder, TypeAttributeBuilder},
     TraitHandler,
 };
-use crate::{common::tools::DiscriminantType, Trait};
+use crate::{common::tools::discriminant_value_expr, Trait};
 
 pub(crate) struct PartialOrdEnumHandler;
 
@@ -28,7 +28,8 @@ impl TraitHandler for PartialOrdEnumHandler {
 
         let mut partial_cmp_token_stream = proc_macro2::TokenStream::new();
 
-        let discriminant_type = DiscriminantType::from_ast(ast)?;
+        let discriminant_self = discriminant_value_expr(ast, quote!(self))?;
+        let discriminant_other = discriminant_value_expr(ast, quote!(other))?;
 
         let mut arms_token_stream = proc_macro2::TokenStream::new();
 
@@ -214,9 +215,7 @@ impl TraitHandler for PartialOrdEnumHandler {
             partial_cmp_token_stream.extend(quote!(Some(::core::cmp::Ordering::Equal)));
         } else {
             let discriminant_cmp = quote! {
-                unsafe {
-                    ::core::cmp::Ord::cmp(&*<*const _>::from(self).cast::<#discriminant_type>(), &*<*const _>::from(other).cast::<#discriminant_type>())
-                }
+                ::core::cmp::Ord::cmp(&#discriminant_self, &#discriminant_other)
             };
 
             partial_cmp_token_stream.extend(if all_unit {
